@@ -33,6 +33,11 @@ type LoDesc struct {
 	PassPrompt string `json:"pass_prompt"`
 	Prompt     string `json:"prompt"`
 	Cmd        string `json:"cmd"`
+	// ReadSize is the transport read size (0 = default); Banner is printed together with the option
+	// negotiation, before the user-name prompt (so it is part of what the transport has in hand when
+	// the negotiation is over, and may well be larger than one read).
+	ReadSize int      `json:"read_size,omitempty"`
+	Banner   []string `json:"banner,omitempty"`
 }
 
 // GenLo draws one loopback telnet login.
@@ -40,7 +45,12 @@ func GenLo(r *rand.Rand, idx int) LoDesc {
 	combos := [][2]string{{"crlf-one", "\n"}, {"each", "\n"}, {"lf-only", "\n"}, {"crlf-one", "\r"}, {"each", "\r"}, {"crlf-one", "\r\n"}, {"lf-only", "\r\n"}}
 	c := combos[idx%len(combos)]
 	h := hosts[r.Intn(len(hosts))]
-	return LoDesc{Discipline: c[0], RC: c[1], User: []string{"admin", "netops", "u1"}[r.Intn(3)], Password: "pw" + randStr(r, secretAlpha, 6+r.Intn(8)),
+	var banner []string
+	for i, n := 0, r.Intn(8); i < n; i++ {
+		banner = append(banner, []string{"*** authorized access only ***", "unit 7, uptime 12 days, load 0.10 0.08 0.01", "", "maintenance window tonight 22.00 - 23.00",
+			"all activity on this system is logged and monitored", "contact the noc at ext 4711 before changing anything"}[r.Intn(6)])
+	}
+	return LoDesc{ReadSize: []int{0, 0, 16, 32, 64, 256, 8192}[r.Intn(7)], Banner: banner, Discipline: c[0], RC: c[1], User: []string{"admin", "netops", "u1"}[r.Intn(3)], Password: "pw" + randStr(r, secretAlpha, 6+r.Intn(8)),
 		Rejects: (idx / len(combos)) % 2, DelayMS: 15 + r.Intn(30), Negotiate: r.Intn(2) == 0,
 		UserPrompt: []string{"Username: ", "login: ", h + " login: "}[r.Intn(3)], PassPrompt: []string{"Password: ", "password:"}[r.Intn(2)],
 		Prompt: h + []string{"#", "# ", ">"}[r.Intn(3)], Cmd: "show lo!"}
@@ -78,7 +88,7 @@ func (s *loServer) serve() {
 	if d.Negotiate {
 		conn.Write([]byte{255, 251, 1, 255, 251, 3, 255, 253, 24}) // WILL ECHO, WILL SGA, DO TERMINAL-TYPE
 	}
-	conn.Write([]byte("\r\nUser Access Verification\r\n\r\n" + d.UserPrompt))
+	conn.Write([]byte("\r\n" + strings.Join(append(append([]string(nil), d.Banner...), "User Access Verification", "", ""), "\r\n") + d.UserPrompt))
 	s.mu.Lock()
 	s.state = StWantUser
 	s.mu.Unlock()
@@ -198,6 +208,9 @@ func RunTelnetLo(d LoDesc, h *Hooks) (mon.Result, *Info) {
 	}()
 	opts := []util.Option{options.WithTransportType("telnet"), options.WithPort(ln.Addr().(*net.TCPAddr).Port), options.WithAuthUsername(d.User),
 		options.WithAuthPassword(d.Password), options.WithReturnChar(d.RC), options.WithTimeoutOps(4 * time.Second), options.WithTimeoutSocket(200 * time.Millisecond)}
+	if d.ReadSize > 0 {
+		opts = append(opts, options.WithTransportReadSize(d.ReadSize))
+	}
 	if h != nil {
 		opts = append(opts, h.ExtraOpts...)
 	}
@@ -279,8 +292,16 @@ func RunTelnetLo(d LoDesc, h *Hooks) (mon.Result, *Info) {
 		return bad("c10/first-sendcommand", "SendCommand returned %q, %v", res, err)
 	}
 	info.DeviceLog = srv.snapshot()
+	obs := map[string]int64{"real_telnet_transport_logins": 1, "credential_lines": int64(len(log))}
+	early := len(d.UserPrompt) + 30
+	for _, l := range d.Banner {
+		early += len(l) + 2
+	}
+	if d.ReadSize > 0 && early > d.ReadSize {
+		obs["telnet_early_bytes_larger_than_read_size"] = 1
+	}
 	return mon.Result{Verdict: mon.Held, NonTrivial: true,
-		Obs:    map[string]int64{"real_telnet_transport_logins": 1, "credential_lines": int64(len(log))},
-		Tags:   []string{"telnet-transport:discipline=" + d.Discipline, fmt.Sprintf("telnet-transport:returnchar=%q", d.RC), fmt.Sprintf("telnet-transport:refusals=%d", d.Rejects)},
+		Obs:    obs,
+		Tags:   []string{fmt.Sprintf("telnet-transport:readsize=%d", d.ReadSize), "telnet-transport:discipline=" + d.Discipline, fmt.Sprintf("telnet-transport:returnchar=%q", d.RC), fmt.Sprintf("telnet-transport:refusals=%d", d.Rejects)},
 		Sample: map[string]interface{}{"session": what, "device_log": log, "elapsed_ms": time.Since(t0).Milliseconds()}}, info
 }
